@@ -29,6 +29,12 @@ CLAIMED = {
  "C06": ("TLA+ decomposition predicate (OpsDiff.ValidDecomposition = canonical ranges and AddCal(start, comps) = end, rebuilt with the SPEC's AddCal) + AlgPD transcription of precise_diff model-checked for refinement per branch (MC_Diff); TLC trace validation of Interval components and of both helper back-ends",
          "TLC checks over all date pairs of a window of years in which branches precise_diff's algorithm refines the predicate (all but the 'full month' branch); every recorded Interval (month/day x month/day x leap pattern x borrow product, zone pairs around transitions, reversed and random pairs) is judged by TLC: ranges, rebuild of the end in the common zone or in UTC, in_months, a + (b - a), add(components), each helper back-end separately and their equality; the property's premise is evaluated by the spec",
          "TLC, tz database as above, harness projection; spans beyond 2^33 s are outside the float-exact range of Interval and not judged", "7 C06"),
+ "C12": ("TLA+ reference = first/last instant of the calendar unit (OpsModifiers.StartOfRef/EndOfRef), model-checked against the property's predicate on every synthetic zone geometry (MC_Modifiers); TLC trace validation of start_of/end_of on the days of every tz-database anomaly",
+         "TLC checks that the reference delimits the unit (same unit, start <= x <= end, neighbouring microseconds outside, idempotent, zone kept) for all units, the 7 consistent week configurations and all synthetic geometries; every recorded start_of/end_of call - values on and around the days of every gap/overlap of the tz data obtained raw with either fold or by conversion (history independence), idempotence on the threaded result, UTC/naive/fixed-offset values and Dates over the calendar - is judged by TLC against the reference",
+         "TLC, tz database as above, harness projection; classes of inputs where pendulum is known to be wrong are listed in known_findings.json by spec-computed labels", "7 C12"),
+ "C16": ("TLA+ weekday navigation (OpsModifiers: NextOrd/PrevOrd/FirstOfOrd/LastOfOrd/NthOfOrd over Calendar.tla, model-checked in MC_Calendar); TLC trace validation over all month shapes and tz-database anomaly days",
+         "every recorded next/previous/first_of/last_of/nth_of call - all 28 month shapes x quarters x leap years x 7 weekdays (and none) x n up to 54 x 3 units for Date, UTC and naive DateTime; zone DateTimes on, around and far from days with a skipped or repeated midnight, both folds, with and without keep_time - is judged by TLC: target date, 00:00 (or kept time) normalised by the construction rules, PendulumException exactly when the unit holds fewer than n",
+         "TLC, tz database as above, harness projection", "7 C16"),
 }
 NOT_YET = "check not built yet in this round (planned: see DESIGN.md section 7)"
 
